@@ -44,7 +44,9 @@ RULE = ('random trees (depth<=4, fan-out<=4; names: ASCII, reserved URL characte
         'digits, numerics, spaces, sharp s, dotted I, titlecase digraphs) x elements of any type (bytes: ASCII, UTF-8, malformed; '
         'int, bool, float, Decimal, Fraction, None, str subclass) in two lists asked one after the other in one process, the '
         'second often equal to the first AS A CACHE KEY but printing differently (1 / True / 1.0 / Decimal(\'1.00\')) or a near '
-        'miss (same text as the other type, other letter case); every case run over warm and cold caches. non-trivial = r is not the root, is '
+        'miss (same text as the other type, other letter case) x ambient state (40 %: every call made while a request is '
+        'current whose root / context is the same tree, a look-alike tree of other objects with the same names, or an unrelated '
+        'tree); every case run over warm and cold caches. non-trivial = r is not the root, is '
         'found back from its own path, and the case has a virtual-root header or a non-empty relative path; distinct by '
         'full case')
 ASSUMPTIONS = [
@@ -60,6 +62,8 @@ ASSUMPTIONS = [
     'bracketed hosts are taken from the implementation as oracle inputs of the model; webob\'s application_url and its '
     'PATH_SAFE constant are modelled',
     'the request handed to virtual_root() has no `root` attribute (find_root is the fallback)',
+    'the API is a function of its arguments: the model has no notion of a current (thread-local) request; the harness makes '
+    'the calls with and without one, whose root is the same tree or another one, and demands the same answers',
     'a WSGI server hands PATH_INFO over as the percent-decoded path in latin-1 (urllib.parse.unquote_to_bytes)',
 ]
 TRUSTED = [
@@ -507,6 +511,12 @@ def gen_case(rng):
         if extra:
             case['falsy'] = case.get('falsy', []) + extra
     gen_typed_elements(rng, case)
+    # ambient state: the calls are made while a request is being processed (the router's thread-local request) whose root /
+    # context are the case's own tree ('same'), a look-alike tree of OTHER objects with the same names ('twin') or an
+    # unrelated tree ('small'): nothing the API answers may come from the request that happens to be current
+    x = rng.random()
+    if x < 0.40:
+        case['ambient'] = 'twin' if x < 0.22 else 'small' if x < 0.32 else 'same'
     return case
 
 
@@ -580,7 +590,9 @@ def _valid_pos(tree, p):
 
 def valid(case):
     try:
-        if sorted(k for k in case if k not in ('falsy', 'tels', 'tels2')) != \
+        if case.get('ambient', 'same') not in AMBIENT_KINDS:
+            return False
+        if sorted(k for k in case if k not in ('falsy', 'tels', 'tels2', 'ambient')) != \
                 ['a', 'els', 'r', 'rel', 'rel_str', 'script', 'tree', 'vroot']:
             return False
         for k in ('tels', 'tels2'):
@@ -695,10 +707,14 @@ def _remap_falsy(case, cand):
 
 
 def shrinks(case):
+    if 'ambient' in case:
+        yield {k: v for k, v in case.items() if k != 'ambient'}
+        if case['ambient'] != 'small':
+            yield dict(case, ambient='small')
     for cand in _shrinks_typed(case):
         yield cand
-    typed = {k: case[k] for k in ('tels', 'tels2') if k in case}
-    for cand in _shrinks_rest({k: v for k, v in case.items() if k not in ('tels', 'tels2')}):
+    typed = {k: case[k] for k in ('tels', 'tels2', 'ambient') if k in case}
+    for cand in _shrinks_rest({k: v for k, v in case.items() if k not in ('tels', 'tels2', 'ambient')}):
         if isinstance(cand, dict) and typed:
             cand = dict(cand, **typed)
         yield cand
@@ -787,6 +803,7 @@ def urlsplit_ok(path):
 
 
 NMORE = 3
+AMBIENT_KINDS = ('same', 'twin', 'small')
 
 
 def more_positions(case):
@@ -1023,9 +1040,39 @@ def run_impl(case):
     return cold
 
 
+def _retag(res, tag):
+    """mark every object of a decoy tree: its position reads [tag, ...], so an answer taken from it is visible"""
+    d = res.__dict__
+    d['_pos'] = [tag] + list(d['_pos'])
+    for _, c in d.get('_items', []) or getattr(d.get('_ob'), '_items', []):
+        _retag(c, tag)
+
+
 def _run_once(case):
+    kind = case.get('ambient')
+    if not kind:
+        return _run_calls(case, None)
+    from pyramid.threadlocal import RequestContext
+    amb = _impl['Request'](dict(_impl['base']))
+    amb.registry = _impl['registry']
+    with RequestContext(amb):
+        return _run_calls(case, amb)
+
+
+def _run_calls(case, amb):
     T = _impl['T']
     root = build_tree7(case['tree'], {tuple(p): k for p, k in case.get('falsy', [])})
+    if amb is not None:
+        kind = case['ambient']
+        if kind == 'same':
+            other = root
+        else:
+            other = build_tree7(case['tree'], {tuple(p): k for p, k in case.get('falsy', [])}) if kind == 'twin' else \
+                build_tree7([['a', None], ['one', [['two', None]]], ['x', None]], {})
+            _retag(other, 'OTHER-TREE')
+        # what the router leaves on a request it has traversed
+        amb.root = amb.context = amb.virtual_root = other
+        amb.view_name, amb.subpath, amb.traversed, amb.virtual_root_path = '', (), (), ()
     r = res_at7(root, case['r'])
     a = res_at7(root, case['a'])
     els = tuple(case['els'])
@@ -1314,6 +1361,7 @@ def kinds(case, obs):
     if any(n in UNICODE_CLASS for n in names_at(case['tree'], case['r'])):
         ks.append('lineage-unicode-class-name')
     ks.append('script:' + ('empty' if not case['script'] else 'set'))
+    ks.append('ambient-request:' + (case.get('ambient') or 'none'))
     o11, o12 = obs[11], obs[12]
     ks.append('virtual_root:' + ('root' if o11 == [4, []] else 'inner' if o11[0] == 4 else 'keyerror' if o11[0] == 5 else 'exc'))
     if isinstance(o12, list) and o12 and o12[0] == 8:
@@ -1377,6 +1425,10 @@ def targeted(broken, disagreements, rng):
                        ([['d', '1.0']], [['d', '1.00']]), ([['b', wsgi('\u0664\u0662')]], ['\u0664\u0662'])):
             out.append(dict(base, r=r, vroot=None, tels=t1, tels2=t2))
             out.append(dict(base, r=r, vroot='/one', script='/app', tels=t1, tels2=t2))
+    for amb in AMBIENT_KINDS:
+        for r, a, rel in (([0, 0], [], ['one', 'two']), ([4, 0, 0], [4], ['b', 'zz']), ([], [6], []), ([2, 0], [0, 0], ['c'])):
+            for v in (None, '/one', '/a'):
+                out.append(dict(base, r=r, a=a, rel=rel, rel_str='/'.join(quote(x) for x in rel), vroot=v, ambient=amb))
     for nm in UNICODE_CLASS:
         out.append(dict(base, tree=[[nm, [[nm, None]]]], r=[0, 0], a=[0], rel=[nm], rel_str=quote(nm), vroot=wsgi('/' + nm)))
     for d in disagreements[:20]:
